@@ -636,6 +636,8 @@ def interpret_cqlstring(case, ctx):
     ctx.label("cql:" + feat, "depth:%d" % min(_depth(tree), 5))
     n_frozen = sum(1 for x in _walk(tree) if x["t"] == "frozen")
     ctx.label("frozen:%d" % min(n_frozen, 3))
+    if _frozen_siblings(tree):
+        ctx.label("frozen-siblings")
     ctx.nontrivial(_nontrivial(tree) or n_frozen >= 1)
 
     with ctx.driver(["C28.cqltype_roundtrip", feat]):
@@ -650,13 +652,33 @@ def interpret_cqlstring(case, ctx):
         ctx.check(_squash(got) == _squash(want), ["C28.strip_frozen", feat], "strip_frozen(%r) = %r, expected %r" % (s, got, want))
 
 
+def s_frozen_siblings():
+    """containers with two or more frozen<> children next to each other (and frozen inside frozen)"""
+    scalar = st.sampled_from(["int", "text", "uuid", "timestamp", "boolean", "blob"]).map(lambda n: {"t": n})
+    coll = st.one_of(scalar.map(lambda x: {"t": "list", "of": x}), scalar.map(lambda x: {"t": "set", "of": x}),
+                     st.tuples(scalar, scalar).map(lambda kv: {"t": "map", "k": kv[0], "v": kv[1]}))
+    fro = coll.map(lambda c: {"t": "frozen", "of": c})
+    fro2 = st.one_of(fro, fro.map(lambda f: {"t": "frozen", "of": {"t": "list", "of": f}}))
+    member = st.one_of(fro2, fro2, scalar)
+    tup = st.lists(member, min_size=2, max_size=4).map(lambda l: {"t": "tuple", "of": l})
+    mp = st.tuples(fro, fro2).map(lambda kv: {"t": "map", "k": kv[0], "v": kv[1]})
+    return st.one_of(tup, mp, tup.map(lambda t: {"t": "frozen", "of": t}),
+                     tup.map(lambda t: {"t": "list", "of": {"t": "frozen", "of": t}}),
+                     st.tuples(mp, tup).map(lambda p: {"t": "tuple", "of": [{"t": "frozen", "of": p[0]}, {"t": "frozen", "of": p[1]}]}))
+
+
+def _frozen_siblings(tree):
+    return any(sum(1 for c in _children(x) if c["t"] == "frozen") >= 2 for x in _walk(tree))
+
+
 def s_cqlstring_case():
     names, fnames = _names()
     tricky = st.sampled_from(["frozenx", "frozen_t", "xfrozen", "Frozen", "frozen x"])   # UDT names around the word
     names2 = st.lists(st.one_of(tricky, st.sampled_from(_PLAIN_NAMES)), min_size=1, max_size=3)
     t1 = st.builds(_rename, st.one_of(V.type_trees(max_depth=_max_depth()), s_udt_tree()), names, fnames)
     t2 = st.builds(_rename, st.one_of(V.type_trees(max_depth=2), s_udt_tree()), names2, fnames)
-    tree = st.one_of(t1, t1, t1, t2).map(_no_reversed)
+    sib = s_frozen_siblings()
+    tree = st.integers(0, 9).flatmap(lambda i: t1 if i < 6 else (t2 if i < 8 else sib)).map(_no_reversed)
     return st.fixed_dictionaries({"tree": tree, "ws": st.one_of(st.just(-1), st.just(0), st.integers(1, 2 ** 24 - 1))})
 
 
